@@ -23,6 +23,7 @@ type Profile struct {
 	OnlyKinds   []string
 	ExcludeKind map[string]bool // type kinds avoided by construction (open findings)
 	LongNames   bool            // keep interface bodies >= 21 bytes (finding #6) - until fixed
+	HookHeavy   bool            // hooks on most methods (C10)
 	ErrHeavy    bool            // favour error results, error converters, error getters and error hooks (C07)
 }
 
@@ -618,7 +619,7 @@ func GenProg(t *rapid.T, pf Profile) *Prog {
 			if pf.Hooks && !m.Reverse {
 				eff := EffectiveOpts(it.Opts, m.Opts)
 				for _, kind := range []string{"preprocess", "postprocess"} {
-					if rapid.IntRange(0, 3).Draw(t, kind) != 0 {
+					if rapid.IntRange(0, 3).Draw(t, kind) != 0 && !(pf.HookHeavy && rapid.Bool().Draw(t, kind+"Heavy")) {
 						continue
 					}
 					dptr := rapid.IntRange(0, 3).Draw(t, "hdptr") != 0
